@@ -40,7 +40,7 @@ def stepCodec (p : CodecProg) (toks : List String) : CodecProg × String :=
   | "coins" :: ts => (p, match ts.mapM parseCoinTok with | some cs => hx (encodeCoins cs) | none => "bad-op")
   | ["coins.dec", h] => (p, match unhex h with
     | some b => (match decodeCoins b with
-      | some cs => "ok " ++ " ".intercalate (cs.map fun c => s!"{hx c.denom}:{c.amount}")
+      | some cs => " ".intercalate ("ok" :: cs.map fun c => s!"{hx c.denom}:{c.amount}")
       | none => "err")
     | none => "bad-op")
   | ["msgsend", a, b, amt] => (p, match unhex a, unhex b, amt.toInt? with
